@@ -333,6 +333,22 @@ def fletcher(data):
     return bytes((a, b))
 
 
+def steer(cls, mid, payload, ck):
+    """the payload with its last two bytes chosen so that the frame's Fletcher checksum is exactly ck (2 bytes); needs len >= 2"""
+    p = bytearray(payload)
+    body = bytes((cls, mid)) + len(p).to_bytes(2, "little") + bytes(p[:-2])
+    a0, b0 = fletcher(body)
+    A, B = ck
+    x = (B - b0 - a0 - A) % 256
+    y = (A - a0 - x) % 256
+    p[-2], p[-1] = x, y
+    assert fletcher(bytes((cls, mid)) + len(p).to_bytes(2, "little") + bytes(p)) == bytes(ck)
+    return bytes(p)
+
+
+STEER_TARGETS = (b"\r\n", b"\n\r", b"\x00\x00", b"\xff\xff", b"\xb5\x62", b"$G", b"\xd3\x00", b"\n\n", b"*7")
+
+
 def frame(cls, mid, payload):
     body = bytes((cls, mid)) + len(payload).to_bytes(2, "little") + bytes(payload)
     return b"\xb5\x62" + body + fletcher(body)
